@@ -1216,8 +1216,7 @@ func (s *Service) queryEventExpire(v interface{}) {
 	verifPoint("query.expire", qe.sub)
 	qe.sub.Drain()
 	verifPoint("query.drained", qe.sub)
-	s.runWith(qe.r.Group(), func() {
-		qe.cb(nil)
-	})
-	verifPoint("query.nilqueued", qe.sub)
+	// The listener makes the last callback call with nil, once all requests
+	// received before the subscription was drained have been passed on.
+	go qe.waitDrained()
 }
